@@ -42,6 +42,7 @@ type built struct {
 	panicVal   any
 	stack      string
 	printed    []any
+	all        []any // every value passed to Print, separators included
 	runErr     error
 	badSep     bool
 }
@@ -72,6 +73,7 @@ func buildRun(src string, run bool) built {
 		b.panicked, b.panicVal, b.stack = true, val, stack
 		return b
 	}
+	b.all = all
 	// every println(x) prints x and then "\n"
 	for i, v := range all {
 		if i%2 == 0 {
@@ -379,6 +381,12 @@ func formClass(form string) string {
 }
 
 func (w *worker) checkExpr(e Expr) {
+	if e.Class == "seq" {
+		for _, op := range e.Ops {
+			w.checkSequence(e.Src, op)
+		}
+		return
+	}
 	w.checkDecl("untyped", "const c = "+e.Src)
 	for _, t := range e.Typed {
 		w.checkDecl("typed:"+t, "const c "+t+" = "+e.Src)
@@ -389,6 +397,52 @@ func (w *worker) checkExpr(e Expr) {
 	for _, t := range e.Sites {
 		w.checkSites(e.Src, t)
 	}
+	for _, op := range e.Ops {
+		w.checkSequence(e.Src, op)
+	}
+}
+
+// checkSequence builds one sequence program (sequences.go): same verdict as
+// the reference and, when accepted, the same printed booleans (all true in
+// the reference unless the operator is a comparison of complex parts etc.).
+func (w *worker) checkSequence(v, op string) {
+	src := sequenceProgram(v, op)
+	g := gotypes.Check(src, nil)
+	if g.File != nil && hasInexact(g) {
+		w.counts["bigfloat_domain"]++
+		return
+	}
+	s := buildRun(src, true)
+	both, ok := w.compareVerdict("sequence", src, g, s)
+	if !ok {
+		return
+	}
+	if !both {
+		w.counts["sequence_both_reject"]++
+		return
+	}
+	// println with several arguments prints separators between them: compare the boolean values only
+	want, err := refPrinted(g)
+	if err != nil {
+		w.inconcl = append(w.inconcl, "sequence: no reference value: "+err.Error())
+		return
+	}
+	var got []any
+	for _, x := range s.all {
+		if _, isBool := x.(bool); isBool {
+			got = append(got, x)
+		}
+	}
+	same := len(got) == len(want) && s.runErr == nil
+	for i := 0; same && i < len(want); i++ {
+		same = sameValue(want[i], got[i])
+	}
+	if !same {
+		w.violation("sequence: a named constant does not keep its value, or an operator gives different results on the constant and on its defining expression\n  reference: %s\n  scriggo:   %s (run error %v)\nsource:\n%s", showValues(want), showValues(got), s.runErr, src)
+		return
+	}
+	w.counts["sequence_programs"]++
+	w.sig("sequence", op, valueClass(constantOfK(g)))
 }
 
 func (prop) Work(c core.Case) core.Result {
@@ -473,6 +527,28 @@ func (prop) Drive(d *core.Driver) error {
 	}
 	for _, e := range literalForms() {
 		addSys(e)
+	}
+	for _, e := range midRangeProducts() {
+		addSys(e)
+	}
+	for _, v := range aliasValues {
+		var ops []string
+		for _, op := range aliasOps {
+			if strings.Contains(op, "%w") {
+				for _, sm := range aliasSmall {
+					ops = append(ops, strings.ReplaceAll(op, "%w", sm))
+				}
+			} else {
+				ops = append(ops, op)
+			}
+		}
+		// sequences only: no plain declarations of the value here
+		cur = append(cur, Expr{Src: v, Class: "seq", Ops: ops})
+		sys++
+		if len(cur) >= 4 {
+			cases = append(cases, core.NewCase(fmt.Sprintf("seq-%d", len(cases)), caseData{Exprs: cur}))
+			cur = nil
+		}
 	}
 	if len(cur) > 0 {
 		cases = append(cases, core.NewCase(fmt.Sprintf("sys-%d", len(cases)), caseData{Exprs: cur}))
